@@ -5,7 +5,7 @@ import ast
 import opcode as _opcode
 from typing import Any, Callable, Dict, Iterable, List, Optional, Sequence, Set, Tuple
 
-from mtsa.absint import Interp, K, R, Ref, S, U, V, State, truth
+from mtsa.absint import Interp, K, R, Ref, S, U, V, State, truth, new_frame_id
 from mtsa.cfg import CFG, Node
 from mtsa.index import (
     FunctionInfo,
@@ -260,6 +260,12 @@ class RepoInterp:
         return platform_subscript(obj, key)
 
     def on_call(self, call: ast.Call, fname: Optional[str], fval: Optional[V], args: List[V], kwargs: Dict[str, V], st: State) -> Optional[V]:
+        if isinstance(fval, R) and fval.kind == "rawfunc" and isinstance(call.func, ast.Name):
+            # the undecorated function a package decorator was handed
+            raw = next((f for f in self.repo.all_functions() if f.fq == fval.fields["fq"].v), None)
+            if raw is None:
+                raise AnalysisError(f"undecorated function {fval.fields['fq'].v} not found")
+            return self._inline_call(raw, call, None, args, kwargs, st)
         if isinstance(fval, R) and fval.kind == "partial" and isinstance(call.func, ast.Name) and not kwargs:
             return self.apply_callable(call.func, list(args), st)  # a local holding functools.partial(f, ...)
         if kwargs and "**" not in kwargs:
@@ -695,6 +701,23 @@ class RepoInterp:
         """functools.lru_cache / functools.cache on the callee are honoured: one table per function and process, keyed by
         the arguments, filled only by calls that returned (as in CPython) - so histories see a remembered answer."""
         decos = [d.split("(")[0] for d in callee.decorators()]
+        pkg_decos = [self._package_decorator(callee, d) for d in getattr(callee.node, "decorator_list", [])]
+        if self.heap and pkg_decos and all(p is not None for p in pkg_decos) and callee.cls is None:
+            # decorated with functions of the package itself (`@_cached_per_file`): the decorator is interpreted once per
+            # process with the undecorated function as its argument; what it returns is what callers call
+            dkey = f"__global__:__deco__:{callee.fq}"
+            if dkey not in st.env:
+                obj: V = R("rawfunc", fq=K(callee.fq))
+                for dfi in reversed(pkg_decos):
+                    fake_d = ast.Call(func=ast.Name(id=dfi.qualname, ctx=ast.Load()), args=[], keywords=[])  # type: ignore[union-attr]
+                    obj = self._inline_call(dfi, fake_d, None, [obj], {}, st)  # type: ignore[arg-type]
+                st.env[dkey] = obj
+            wrapped = st.env[dkey]
+            if isinstance(wrapped, R) and wrapped.kind == "localfunc":
+                return self.interp._call_local(wrapped, list(args), dict(kwargs), st)
+            if isinstance(wrapped, R) and wrapped.kind == "rawfunc" and wrapped.fields["fq"] == K(callee.fq):
+                return self._inline_call(callee, call, fval, args, kwargs, st)
+            raise AnalysisError(f"{callee.fq}: its decorator returns something the interpreter cannot call ({wrapped!r:.80})")
         if self.heap and any(d in self.MEMO_DECORATORS for d in decos):
             tkey = f"__global__:__lru__:{callee.fq}"
             if tkey not in st.env:
@@ -712,6 +735,21 @@ class RepoInterp:
         return self._inline_call(callee, call, fval, args, kwargs, st)
 
     CM_DECORATORS = ("contextmanager", "contextlib.contextmanager")
+
+    def _package_decorator(self, callee: FunctionInfo, d: ast.AST) -> Optional[FunctionInfo]:
+        """the module-level function of the package a bare decorator name denotes, else None"""
+        if not isinstance(d, ast.Name):
+            return None
+        mod = callee.module
+        if d.id in mod.functions and mod.functions[d.id].cls is None:
+            return mod.functions[d.id]
+        tgt = mod.imports.get(d.id)
+        if tgt and tgt.startswith("monkeytype."):
+            m2, _, n2 = tgt.rpartition(".")
+            mod2 = self.repo.modules.get(m2)
+            if mod2 is not None and n2 in mod2.functions:
+                return mod2.functions[n2]
+        return None
 
     def _is_generator(self, fi: FunctionInfo) -> bool:
         return any(isinstance(x, (ast.Yield, ast.YieldFrom)) for x in walk_no_nested(fi.node))
@@ -792,6 +830,7 @@ class RepoInterp:
         for gk, gv in st.env.items():
             if gk.startswith("__global__:"):
                 sub.env[gk] = gv
+        sub.env["__frame__"] = new_frame_id()
         is_method = callee.cls is not None and params and params[0] in ("self", "cls")
         if is_method:
             sub.env[params[0]] = fval if fval is not None else S("self")
@@ -854,6 +893,7 @@ class RepoInterp:
                     st.env[k] = v
         gen0 = st.env.get("__global__:__idgen__", K(0))
         st.env["__global__:__idgen__"] = K((gen0.v if isinstance(gen0, K) else 0) + 1)  # a new top-level call of the history
+        st.env["__frame__"] = new_frame_id()
         st.env.update(env)
         if body is None:
             # parameters the scenario does not bind take their declared default
